@@ -121,6 +121,19 @@ NopProgs(z) == { Pushes(d) \o <<c, n>> \o Mk(1) : d \in 0..3, c \in NOps..255, n
 NopCfg(s) == [BaseCfg EXCEPT !.scripts = <<s>>, !.hist = TRUE]
 
 ----------------------------------------------------------------------------
+\* Family "alu": every hint-free data instruction (integer arithmetic, comparison, bitwise, stack permutation,
+\* concat / split, copy, size, logic) on every pair of boundary items over a sentinel, with every boundary operand (C06)
+AluVals(z) == { <<>>, <<0>>, <<1>>, <<2>>, <<127>>, <<128>>, <<255>>, <<0, 128>>, <<255, 127>>, <<128, 0>>, <<1, 0>>, <<0, 0, 3>> }
+AluOps0 == { <<o>> : o \in {6, 8, 18, 20, 29, 32, 33, 34, 46, 51, 53, 55, 56, 57, 58, 62, 63, 86, 87, 88} }
+AluCounts == {0, 1, 2, 3, 128, 255}
+AluOps1 == { <<o, n>> : o \in {7, 14, 15, 16, 28, 54}, n \in AluCounts } \cup { <<52, i, j>> : i \in {0, 1, 2, 255}, j \in {0, 1, 3} }
+\* DIV_INT / MOD_INT: size byte + divisor bytes (0, 1, 3, -3, -128, -256, 200, -1, empty)
+AluDivisors == { <<0>>, <<1, 0>>, <<1, 1>>, <<1, 3>>, <<1, 253>>, <<1, 128>>, <<2, 255, 0>>, <<2, 0, 200>>, <<1, 255>> }
+AluOpsD == { <<o>> \o d : o \in {17, 19}, d \in AluDivisors }
+AluProgs(z) == { Mk(9) \o IPush(a) \o IPush(b) \o o : a \in AluVals(0), b \in AluVals(0), o \in AluOps0 \cup AluOps1 \cup AluOpsD }
+AluCfg(s) == [BaseCfg EXCEPT !.scripts = <<s>>, !.hist = TRUE]
+
+----------------------------------------------------------------------------
 \* Family "cfg": a probe instruction sequence inside every nesting of constructs, under
 \* embedder configurations that switch the probed behaviour on / off (C09).  A probe
 \* record (from the harness): [code, flags (list of <<key, value>> settings to try),
@@ -153,6 +166,7 @@ Configs(z) ==
       [] Family = "limits" -> { LimCfg(s, lim) : s \in Progs(ResAtoms(0), Bound), lim \in LimTriples }
       [] Family = "cache"  -> { CacheCfg(s, r0) : s \in Progs(CacheAtoms(0), Bound), r0 \in {FALSE} }
       [] Family = "nop"    -> { NopCfg(s) : s \in NopProgs(0) }
+      [] Family = "alu"    -> { AluCfg(s) : s \in AluProgs(0) }
       [] Family = "cfg"    -> UNION { { CfgCfg(s, MCData.probes[i].flags[j], nsig) :
                                           s \in CfgProgs(MCData.probes[i]), j \in 1..Len(MCData.probes[i].flags), nsig \in {0, 2} }
                                       : i \in 1..Len(MCData.probes) }
